@@ -574,6 +574,16 @@ impl FunctionCompiler<'_> {
                     assert!(!dest_ty.is_aggregate());
 
                     dest.write_all(res, *dest_ty, self.module, &mut self.builder);
+                } else if matches!(
+                    self.world_bodies[self.loc.file()][assign_body.value],
+                    hir::Expr::ArrayLiteral { .. } | hir::Expr::StructLiteral { .. }
+                ) {
+                    // the members of an aggregate literal may read the destination
+                    // (`pair = .{ a = pair.b, b = pair.a };`), so the literal can't be built in
+                    // place. it's built in a temporary and copied over afterwards
+                    let value = self.compile_and_cast(assign_body.value, *dest_ty);
+
+                    dest.write_all(value, *dest_ty, self.module, &mut self.builder);
                 } else {
                     self.compile_and_cast_into_memory(assign_body.value, *dest_ty, dest);
                 }
